@@ -191,6 +191,7 @@ def c04_rf18(run):
     run.min_instances('RF28', 3)
     rf_inline.rf29(run)
     run.min_instances('RF29', 3)
+    rf_proto.rf16j(run)
 
 
 def c16_rf16(run):
@@ -199,6 +200,7 @@ def c16_rf16(run):
     rf_proto.rf16i(run)
     run.min_instances('RF16a', 5)
     run.min_instances('RF16b', 4)
+    rf_proto.rf16j(run)
     rf_dispatch.rf7g(run)
     run.min_instances('RF7g', 60)
 
@@ -265,6 +267,7 @@ def c05_rf10(run):
     run.min_instances('RF10c', 6)
     rf_abi.rf10d(run)
     run.min_instances('RF10d', 1)
+    rf_abi.rf10e(run)
     rf_dispatch.rf7e(run, units=('gen',), expect=1)
     rf_dispatch.rf7f(run)
     run.min_instances('RF7f', 30)
@@ -275,6 +278,7 @@ def c06_rf10(run):
     run.min_instances('RF10', 24)
     rf_abi.rf10b(run)
     run.min_instances('RF10b', 12)
+    rf_abi.rf10e(run)
     rf_dispatch.rf7f(run)
     run.min_instances('RF7f', 30)
 
